@@ -5,6 +5,7 @@ CONSTANTS
   PerRound = 1
   NotifyMode = "token"
   TempApps = {2}
+  TwoPhaseApps = {}
   ExitMode = "recheck"
 INVARIANTS FIFO DrainSound NoHang LockOK
 PROPERTIES FIFOStep DrainReturns
